@@ -12,7 +12,7 @@ def run(cmd, **kw):
 
 
 def evaluate(pid, x, extra_checks=()):
-    src = "/tmp/seedout_%s" % pid
+    src = ("/tmp/seedout2_%s" if x in ("C", "D") else "/tmp/seedout_%s") % pid
     patch, demo = os.path.join(src, x + ".diff"), os.path.join(src, x + "_demo.py")
     if not (os.path.exists(patch) and os.path.exists(demo)):
         print(pid, x, "MISSING FILES")
@@ -67,6 +67,11 @@ def evaluate(pid, x, extra_checks=()):
 
 
 if __name__ == "__main__":
-    for pid in sys.argv[1:]:
-        for x in ("A", "B"):
+    variants = ("A", "B")
+    args = sys.argv[1:]
+    if args and args[0] == "--round2":
+        variants = ("C", "D")
+        args = args[1:]
+    for pid in args:
+        for x in variants:
             evaluate(pid, x)
